@@ -53,6 +53,66 @@ def run(ck: Check, repo: Repo) -> None:
     _buffer_idiom(ck, repo)
 
 
+# ------------------------------------------------------------------------------------------------ roles of locals
+# Locals of the inspected functions are never recognised by their spelling; their roles are derived from parameters
+# (`pop`, `env`, `max_steps`, ...), attribute / callee names, constants and def-use chains.
+def _name_in(e: Optional[ast.AST], names) -> bool:
+    return isinstance(e, ast.Name) and e.id in names
+
+
+def _mentions(e: ast.AST, name: str) -> bool:
+    return any(isinstance(x, ast.Name) and x.id == name for x in ast.walk(e))
+
+
+def _def_values(cfg: CFG, n: Optional[Node], name: str) -> List[Optional[ast.AST]]:
+    return [cfg.value_of_def(d, name) for d in cfg.defs_reaching(n, name)] if n is not None else []
+
+
+def _is_zero(v: Optional[ast.AST]) -> bool:
+    return isinstance(v, ast.Constant) and type(v.value) is int and v.value == 0
+
+
+def _last_steps_of(e: Optional[ast.AST]) -> Optional[str]:
+    """`a` if e is `a.steps[-1]` for a name a."""
+    if isinstance(e, ast.Subscript) and const_value(e.slice) == -1 and isinstance(e.value, ast.Attribute) and e.value.attr == "steps" \
+            and isinstance(e.value.value, ast.Name):
+        return e.value.value.id
+    return None
+
+
+def _loop_var(loop: ast.AST) -> Optional[str]:
+    """The element variable of `for a in xs` / `for i, a in enumerate(xs)` (also for a comprehension clause)."""
+    t, it = loop.target, loop.iter
+    if isinstance(t, ast.Name):
+        return t.id
+    if isinstance(t, ast.Tuple) and len(t.elts) == 2 and isinstance(t.elts[1], ast.Name) and isinstance(it, ast.Call) and call_name(it) == "enumerate":
+        return t.elts[1].id
+    return None
+
+
+def _is_num_envs(cfg: CFG, n: Node, e: Optional[ast.AST]) -> bool:
+    """e is the local holding the number of environments: every definition reaching n is `env.num_envs` or the constant 1."""
+    if not isinstance(e, ast.Name):
+        return False
+    vals = _def_values(cfg, n, e.id)
+    return bool(vals) and all(v is not None and (dotted(v) == "env.num_envs" or const_value(v) == 1) for v in vals) and any(dotted(v) == "env.num_envs" for v in vals)
+
+
+def _eval_comps(fn: Fn) -> List[ast.ListComp]:
+    """`[a.test(...) for a in <iterable>]`: the evaluation of a population."""
+    return [n for n in ast.walk(fn.node) if isinstance(n, ast.ListComp) and isinstance(n.elt, ast.Call) and isinstance(n.elt.func, ast.Attribute) and n.elt.func.attr == "test"
+            and len(n.generators) == 1 and _loop_var(n.generators[0]) is not None and _name_in(n.elt.func.value, {_loop_var(n.generators[0])})]
+
+
+def _fitness_record(fn: Fn):
+    """(name the generation's fitnesses are bound to, the `<history>.append(<that name>)` calls)."""
+    comps = _eval_comps(fn)
+    fit = {t.id for a in ast.walk(fn.node) if isinstance(a, ast.Assign) and any(a.value is c for c in comps) for t in a.targets if isinstance(t, ast.Name)}
+    apps = [c for c in calls_in(fn.node) if isinstance(c.func, ast.Attribute) and c.func.attr == "append" and isinstance(c.func.value, ast.Name)
+            and len(c.args) == 1 and _name_in(c.args[0], fit)]
+    return fit, apps
+
+
 # ------------------------------------------------------------------------------------------------ C20.1
 def _consumers(ck: Check, repo: Repo) -> None:
     n = 0
@@ -61,7 +121,9 @@ def _consumers(ck: Check, repo: Repo) -> None:
         cfg = CFG(fn.node)
         p = fn.named_params[1]
         by_key = [x for x in walk_no_nested(fn.node) if isinstance(x, ast.Subscript) and dotted(x.value) == p and isinstance(x.slice, ast.Constant) and isinstance(x.slice.value, str)]
-        by_key += [x for x in walk_no_nested(fn.node) if isinstance(x, ast.GeneratorExp) and f"{p}[key]" in ast.unparse(x)]
+        # `(batch[k] for k in (<keys>))`: the subscript is the generator's own variable
+        by_key += [x for x in walk_no_nested(fn.node) if isinstance(x, ast.GeneratorExp) and len(x.generators) == 1 and isinstance(x.generators[0].target, ast.Name)
+                   and any(isinstance(y, ast.Subscript) and dotted(y.value) == p and _name_in(y.slice, {x.generators[0].target.id}) for y in ast.walk(x.elt))]
         unpacks = [x for x in cfg.live_nodes() if x.kind == "stmt" and isinstance(x.ast, ast.Assign) and isinstance(x.ast.targets[0], ast.Tuple) and dotted(x.ast.value) == p]
         n += 1
         guarded = True
@@ -86,8 +148,27 @@ def _consumers(ck: Check, repo: Repo) -> None:
     # the loops create the buffer with the five field names in that order
     for lname in ("train_multi_agent_off_policy",):
         fn = repo.fn(LOOPS[lname], lname)
-        calls = [c for c in calls_in(fn.node) if call_name(c) == "agent.learn"]
-        ck.ob("C20.1", fn, calls[0] if calls else fn.node, bool(calls) and all(dotted(c.args[0]) == "experiences" for c in calls), f"{lname}: learn receives what the sampler returned")
+        cfg = CFG(fn.node)
+        # the agent is the element variable of a loop over `pop`; the sampler is a local bound to Sampler(...)
+        agents = {_loop_var(l) for l in ast.walk(fn.node) if isinstance(l, ast.For) and _mentions(l.iter, "pop")} - {None}
+        calls = [c for c in calls_in(fn.node) if isinstance(c.func, ast.Attribute) and c.func.attr == "learn" and _name_in(c.func.value, agents)]
+
+        def sampled(c: ast.Call) -> bool:
+            n = cfg.node_of(c)
+            if not c.args or not isinstance(c.args[0], ast.Name) or n is None:
+                return False
+            out = True
+            dn = cfg.defs_reaching(n, c.args[0].id)
+            for d in dn:
+                v = cfg.value_of_def(d, c.args[0].id)
+                if not (isinstance(v, ast.Call) and isinstance(v.func, ast.Attribute) and v.func.attr == "sample" and isinstance(v.func.value, ast.Name)):
+                    return False
+                sv = _def_values(cfg, d, v.func.value.id)
+                # drawn through a Sampler(...) or straight from the buffer parameter it forwards to
+                out = out and (v.func.value.id == "memory" and "memory" in fn.params or bool(sv) and all(isinstance(x, ast.Call) and call_name(x) == "Sampler" for x in sv))
+            return out and bool(dn)
+
+        ck.ob("C20.1", fn, calls[0] if calls else fn.node, bool(calls) and all(sampled(c) for c in calls), f"{lname}: learn receives what the sampler returned")
     # Sampler dispatch: call shapes
     sm = repo.cls("agilerl.components.sampler", "Sampler")
     table = {"sample_standard": ("self.memory.sample", ["batch_size", "return_idx"]), "sample_per": ("self.memory.sample", ["batch_size", "beta"]),
@@ -181,15 +262,15 @@ def _accounting(ck: Check, repo: Repo) -> None:
     for lname, modname in LOOPS.items():
         fn = repo.fn(modname, lname)
         cfg = CFG(fn.node)
-        whiles = [n for n in cfg.live_nodes() if n.kind == "test" and isinstance(n.stmt, ast.While) and "steps[-1]" in ast.unparse(n.ast)]
+        whiles = [n for n in cfg.live_nodes() if n.kind == "test" and isinstance(n.stmt, ast.While) and any(_last_steps_of(x) for x in ast.walk(n.ast))]
         ck.ob("C20.4", fn, whiles[0].ast if whiles else fn.node, len(whiles) == 1, f"{lname}: one outer loop on the step budget", construct=f"{lname}: budget loop")
         if len(whiles) != 1:
             continue
         W = whiles[0]
         cond = ast.unparse(W.ast)
         doc = ast.get_docstring(fn.node) or ""
-        summed = "np.sum([agent.steps[-1] for agent in pop]) < max_steps" in cond
-        per_agent = "np.less([agent.steps[-1] for agent in pop], max_steps).all()" in cond
+        summed = has(W.ast, 'np.sum([$agent.steps[-1] for $agent in pop]) < max_steps')
+        per_agent = has(W.ast, 'np.less([$agent.steps[-1] for $agent in pop], max_steps).all()')
         says_sum = "across the entire population" in doc or "summed" in doc
         ck.ob("C20.4", fn, W.ast, (summed and says_sum) or (per_agent and not says_sum),
               f"{lname}: training continues while the documented budget is not met ({'population sum' if says_sum else 'every agent below max_steps'})",
@@ -200,11 +281,13 @@ def _accounting(ck: Check, repo: Repo) -> None:
             loops = [l for l in cfg.live_nodes() if l.kind == "for" and any(x is steps_calls[0] for x in ast.walk(l.ast))]
             inner = loops[-1]
             body = {n.id for n in cfg.live_nodes() if n.stmt is not None and any(x is n.stmt for b in inner.ast.body for x in ast.walk(b))}
+            roles = _counter_roles(cfg, fn, loops, body)
             for var in ("steps", "total_steps"):
-                incs = [n for n in cfg.live_nodes() if n.id in body and n.kind == "stmt" and isinstance(n.ast, ast.AugAssign) and dotted(n.ast.target) == var and isinstance(n.ast.op, ast.Add)]
+                cands = roles[var]
+                incs = [n for n in cfg.live_nodes() if n.id in body and n.kind == "stmt" and isinstance(n.ast, ast.AugAssign) and _name_in(n.ast.target, cands) and isinstance(n.ast.op, ast.Add)]
                 if lname == "train_bandits":
                     continue
-                ok = len(incs) == 1 and dotted(incs[0].ast.value) == "num_envs" and not cfg.guards_at(incs[0]) == [] or (len(incs) == 1 and dotted(incs[0].ast.value) == "num_envs")
+                ok = len(cands) == 1 and len(incs) == 1 and _is_num_envs(cfg, incs[0], incs[0].ast.value)
                 if ok:
                     # on every path from env.step to the end of the iteration
                     p = cfg.path_avoiding(sn, {inner.id}, {incs[0].id})
@@ -212,26 +295,56 @@ def _accounting(ck: Check, repo: Repo) -> None:
                 ck.ob("C20.4", fn, incs[0].ast if incs else steps_calls[0], ok, f"{lname}: `{var}` grows by num_envs exactly once for every env.step, on every path",
                       detail=f"increments of {var} in the rollout body: {[short(i.ast, 40) for i in incs]}")
             # steps reset per agent
-            resets = [n for n in cfg.live_nodes() if n.kind == "stmt" and isinstance(n.ast, ast.Assign) and dotted(n.ast.targets[0]) == "steps" and const_value(n.ast.value) == 0]
+            resets = [n for n in cfg.live_nodes() if n.kind == "stmt" and isinstance(n.ast, ast.Assign) and _name_in(n.ast.targets[0], roles["steps"]) and _is_zero(n.ast.value)]
+            agent_loop = [l for l in loops if _mentions(l.ast.iter, "pop")]
             if lname != "train_bandits":
-                ck.ob("C20.4", fn, resets[0].ast if resets else fn.node, len(resets) == 1 and resets[0].id not in body, f"{lname}: the per-agent step counter starts from zero for every agent and generation")
-        # agent.steps[-1] += <steps taken>
-        adds = [n for n in cfg.live_nodes() if n.kind == "stmt" and isinstance(n.ast, ast.AugAssign) and ast.unparse(n.ast.target) == "agent.steps[-1]" and isinstance(n.ast.op, ast.Add)]
+                ck.ob("C20.4", fn, resets[0].ast if resets else fn.node, len(roles["steps"]) == 1 and len(resets) == 1 and resets[0].id not in body
+                      and bool(agent_loop) and any(x is resets[0].ast for x in ast.walk(agent_loop[0].ast)),
+                      f"{lname}: the per-agent step counter starts from zero for every agent and generation")
+        else:
+            roles = {"steps": set(), "total_steps": set()}
+        # <agent>.steps[-1] += <steps taken>
+        adds = [n for n in cfg.live_nodes() if n.kind == "stmt" and isinstance(n.ast, ast.AugAssign) and _last_steps_of(n.ast.target) and isinstance(n.ast.op, ast.Add)]
         want = {"train_bandits": "episode_steps", "train_offline": "evo_steps"}.get(lname, "steps")
-        ok = len(adds) == 1 and dotted(adds[0].ast.value) == want
+        # what was taken: a parameter in the loops without a rollout of their own, the per-agent counter otherwise
+        taken = {want} if want in fn.params else (roles["steps"] if len(roles["steps"]) == 1 else set())
+        ok = len(adds) == 1 and _name_in(adds[0].ast.value, taken)
         if ok:
             al = [l for l in cfg.live_nodes() if l.kind == "for" and any(x is adds[0].ast for x in ast.walk(l.ast))]
-            ok = len(al) == 1 and "pop" in ast.unparse(al[0].ast.iter) and not cfg.guards_at(adds[0]) == None
+            ok = len(al) == 1 and _mentions(al[0].ast.iter, "pop") and _loop_var(al[0].ast) == _last_steps_of(adds[0].ast.target) and not cfg.guards_at(adds[0]) == None
             first = cfg.node_of(al[0].ast.body[0]) if al else None
             ok = ok and first is not None and cfg.postdominates(adds[0], first)
         ck.ob("C20.4", fn, adds[0].ast if adds else fn.node, ok, f"{lname}: each agent's counter grows by the steps it took ({want}), once per agent and generation, on every path")
-        apps = [c for c in calls_in(fn.node) if call_name(c) == "agent.steps.append"]
-        ok = len(apps) == 1 and ast.unparse(apps[0].args[0]) == "agent.steps[-1]"
+        apps = [c for c in calls_in(fn.node) if isinstance(c.func, ast.Attribute) and c.func.attr == "append" and isinstance(c.func.value, ast.Attribute)
+                and c.func.value.attr == "steps" and isinstance(c.func.value.value, ast.Name)]
+        ok = len(apps) == 1 and len(apps[0].args) == 1 and _last_steps_of(apps[0].args[0]) == apps[0].func.value.value.id
         if ok:
             n = cfg.node_of(apps[0])
             al = [l for l in cfg.live_nodes() if l.kind == "for" and any(x is apps[0] for x in ast.walk(l.ast))]
-            ok = len(al) == 1 and dotted(al[0].ast.iter) == "pop" and not [g for g, p, t in cfg.guards_at(n) if "accelerator" not in ast.unparse(g)]
+            ok = len(al) == 1 and dotted(al[0].ast.iter) == "pop" and _name_in(al[0].ast.target, {apps[0].func.value.value.id}) \
+                and not [g for g, p, t in cfg.guards_at(n) if "accelerator" not in ast.unparse(g)]
         ck.ob("C20.4", fn, apps[0] if apps else fn.node, ok, f"{lname}: one new step-counter entry per agent per generation")
+
+
+def _counter_roles(cfg: CFG, fn: Fn, loops: List[Node], body: Set[int]) -> Dict[str, Set[str]]:
+    """The two step counters of a rollout loop, by role:
+    `steps` (per agent): what is added to <agent>.steps[-1], or a counter set to 0 inside the loop over `pop` (outside the rollout body)
+    that the rollout body advances by the number of environments;
+    `total_steps` (global): a counter set to 0 outside every loop that the rollout body advances by the number of environments
+    or that is reported as "global_step".  More than one candidate for a role means the accounting is inconsistent."""
+    live = cfg.live_nodes()
+    all_loops = [l for l in ast.walk(fn.node) if isinstance(l, (ast.For, ast.While))]
+    agent_loop = [l for l in loops if _mentions(l.ast.iter, "pop")]
+    zero = [n for n in live if n.kind == "stmt" and isinstance(n.ast, ast.Assign) and len(n.ast.targets) == 1 and isinstance(n.ast.targets[0], ast.Name) and _is_zero(n.ast.value)]
+    in_agent = {n.ast.targets[0].id for n in zero if agent_loop and n.id not in body and any(x is n.ast for x in ast.walk(agent_loop[0].ast))}
+    top = {n.ast.targets[0].id for n in zero if not any(x is n.ast for l in all_loops for x in ast.walk(l))}
+    advanced = {n.ast.target.id for n in live if n.id in body and n.kind == "stmt" and isinstance(n.ast, ast.AugAssign) and isinstance(n.ast.op, ast.Add)
+                and isinstance(n.ast.target, ast.Name) and _is_num_envs(cfg, n, n.ast.value)}
+    added = {n.ast.value.id for n in live if n.kind == "stmt" and isinstance(n.ast, ast.AugAssign) and isinstance(n.ast.op, ast.Add) and _last_steps_of(n.ast.target)
+             and isinstance(n.ast.value, ast.Name) and n.ast.value.id not in fn.params}
+    reported = {x.id for d in ast.walk(fn.node) if isinstance(d, ast.Dict) for k, v in zip(d.keys, d.values) if const_value(k) == "global_step"
+                for x in ast.walk(v) if isinstance(x, ast.Name)}
+    return {"steps": added | (in_agent & advanced), "total_steps": top & (advanced | reported)}
 
 
 # ------------------------------------------------------------------------------------------------ C20.5
@@ -250,11 +363,14 @@ def _fitness(ck: Check, repo: Repo) -> None:
     # the loops evaluate every agent once per generation
     for lname, modname in LOOPS.items():
         fn = repo.fn(modname, lname)
-        comps = [n for n in ast.walk(fn.node) if isinstance(n, ast.ListComp) and isinstance(n.elt, ast.Call) and call_name(n.elt) == "agent.test"]
+        comps = _eval_comps(fn)
         ok = len(comps) == 1 and dotted(comps[0].generators[0].iter) == "pop" and not comps[0].generators[0].ifs
         ck.ob("C20.5", fn, comps[0] if comps else fn.node, ok, f"{lname}: every agent of the population is evaluated exactly once per generation")
-        apps = [c for c in calls_in(fn.node) if call_name(c) == "pop_fitnesses.append"]
-        ck.ob("C20.5", fn, apps[0] if apps else fn.node, len(apps) == 1 and dotted(apps[0].args[0]) == "fitnesses", f"{lname}: the generation's fitnesses are recorded once")
+        # the history is the list the evaluation result is appended to; it is the one handed back with the population
+        fit, apps = _fitness_record(fn)
+        returned = {r.value.elts[1].id for r in walk_no_nested(fn.node) if isinstance(r, ast.Return) and isinstance(r.value, ast.Tuple) and len(r.value.elts) == 2
+                    and isinstance(r.value.elts[1], ast.Name)}
+        ck.ob("C20.5", fn, apps[0] if apps else fn.node, len(fit) == 1 and len(apps) == 1 and apps[0].func.value.id in returned, f"{lname}: the generation's fitnesses are recorded once")
 
 
 # ------------------------------------------------------------------------------------------------ C20.6
@@ -271,12 +387,14 @@ def _population(ck: Check, repo: Repo) -> None:
             gs = [ast.unparse(g) for g, pol, _ in cfg.guards_at(n) if pol]
             ck.ob("C20.6", fn, c, any("tournament" in g and "mutation" in g for g in gs), f"{lname}: only when both a tournament and mutations are configured")
             # evaluation precedes selection in the generation
-            comps = [x for x in ast.walk(fn.node) if isinstance(x, ast.ListComp) and isinstance(x.elt, ast.Call) and call_name(x.elt) == "agent.test"]
+            comps = _eval_comps(fn)
             if comps:
                 en = cfg.node_of(comps[0])
                 ck.ob("C20.6", fn, c, en is not None and cfg.dominates(en, n), f"{lname}: agents are evaluated before they are selected")
         rets = [n for n in cfg.live_nodes() if n.kind == "stmt" and isinstance(n.ast, ast.Return)]
-        ck.ob("C20.6", fn, rets[0].ast if rets else fn.node, bool(rets) and all(isinstance(r.ast.value, ast.Tuple) and [dotted(x) for x in r.ast.value.elts] == ["pop", "pop_fitnesses"] for r in rets),
+        history = {c.func.value.id for c in _fitness_record(fn)[1]}
+        ck.ob("C20.6", fn, rets[0].ast if rets else fn.node, bool(rets) and len(history) == 1 and all(
+            isinstance(r.ast.value, ast.Tuple) and len(r.ast.value.elts) == 2 and dotted(r.ast.value.elts[0]) == "pop" and _name_in(r.ast.value.elts[1], history) for r in rets),
               f"{lname}: returns (population, fitnesses) on every exit")
 
 
@@ -291,13 +409,41 @@ def _eval_vs_rollout(ck: Check, repo: Repo) -> None:
         if not computes_vect:
             continue
         steps = [c for c in calls_in(fn.node) if call_name(c) == "env.step"]
-        handles = ("is_vectorised" in src or has(src, 'not $vectorised') or has(src, 'if not $is_vectorised:\n    ...')) or ("action[0]" in src) or ("np.array([" in src and "done" in src)
+        handles = _handles_single_env(fn, steps)
         multi = cname in ("IPPO", "MADDPG", "MATD3")
         ck.ob("C20.7", fn, steps[0] if steps else fn.node, handles,
               f"{cname}.test un-batches the action and wraps scalar done flags when the environment is not vectorised, as its training loop does",
               detail="test() computes num_envs = env.num_envs if hasattr(env, 'num_envs') else 1 but then passes the batched action to env.step and zips the scalar done/trunc flags: "
                      "evaluation on a plain Gymnasium environment fails although the rollout in the training loop handles it (`if not is_vectorised: action = action[0]`)",
               construct=f"{cname}.test: single-environment handling")
+
+
+def _handles_single_env(fn: Fn, steps: List[ast.Call]) -> bool:
+    """Does test() treat a non-vectorised environment separately?  Three shapes, none depending on how a local is spelled:
+    (a) a flag derived from hasattr(env, 'num_envs') (assigned directly, or True / False in the two branches of that test) is tested;
+    (b) the action handed to env.step is un-batched (`a = a[0]`); (c) a flag returned by env.step is wrapped (`np.array([d])`)."""
+    def is_probe(e: ast.AST) -> bool:
+        return isinstance(e, ast.Call) and call_name(e) == "hasattr" and len(e.args) == 2 and dotted(e.args[0]) == "env" and const_value(e.args[1]) == "num_envs"
+
+    def consts(stmts: List[ast.stmt], value: bool) -> Set[str]:
+        return {t.id for s in stmts if isinstance(s, ast.Assign) and isinstance(s.value, ast.Constant) and s.value.value is value for t in s.targets if isinstance(t, ast.Name)}
+
+    flags: Set[str] = set()
+    for x in ast.walk(fn.node):
+        if isinstance(x, ast.If) and is_probe(x.test):
+            flags |= consts(x.body, True) & consts(x.orelse, False)
+        if isinstance(x, ast.Assign) and is_probe(x.value):
+            flags |= {t.id for t in x.targets if isinstance(t, ast.Name)}
+    tests = [x.test for x in ast.walk(fn.node) if isinstance(x, (ast.If, ast.IfExp, ast.While))]
+    flag_tested = any(_name_in(y, flags) for t in tests for y in ast.walk(t))
+    acted = {a.id for c in steps for a in c.args if isinstance(a, ast.Name)}
+    unbatched = any(isinstance(x, ast.Assign) and len(x.targets) == 1 and _name_in(x.targets[0], acted) and isinstance(x.value, ast.Subscript)
+                    and _name_in(x.value.value, {x.targets[0].id}) and const_value(x.value.slice) == 0 for x in ast.walk(fn.node))
+    received = {t.id for x in ast.walk(fn.node) if isinstance(x, ast.Assign) and any(x.value is c for c in steps) for tt in x.targets if isinstance(tt, ast.Tuple)
+                for t in tt.elts if isinstance(t, ast.Name)}
+    wrapped = any(isinstance(x, ast.Call) and call_name(x) in ("np.array", "numpy.array") and x.args and isinstance(x.args[0], ast.List) and len(x.args[0].elts) == 1
+                  and _name_in(x.args[0].elts[0], received) for x in ast.walk(fn.node))
+    return flag_tested or unbatched or wrapped
 
 
 # ------------------------------------------------------------------------------------------------ C20.9
@@ -343,4 +489,15 @@ VARIANTS += [
     ("cqn-unpack-unguarded", "agilerl/algorithms/cqn.py", "        if hasattr(experiences, \"keys\"):\n            # TensorDict (or dict) batch as returned by ``ReplayBuffer.sample()``\n            states, actions, rewards, next_states, dones = (\n                experiences[key]\n                for key in (\"obs\", \"action\", \"reward\", \"next_obs\", \"done\")\n            )\n        else:\n            states, actions, rewards, next_states, dones = experiences\n",
      "        states, actions, rewards, next_states, dones = experiences\n", "fire", "C20.1"),
     ("protocol-isinstance-back", "agilerl/utils/algo_utils.py", "    assert hasattr(policy, \"encoder\"), \"Policy must be an EvolvableNetwork\"", "    assert isinstance(policy, EvolvableNetwork), \"Policy must be an EvolvableNetwork\"", "fire", "C20.3"),
+]
+# roles derived by def-use instead of by the spelling of locals: each role still has to be played by the right value
+VARIANTS += [
+    ("off-total-plus-one", _TO, "                total_steps += num_envs\n                steps += num_envs\n", "                total_steps += 1\n                steps += num_envs\n", "fire", "C20.4"),
+    ("off-steps-never-reset", _TO, "            steps = 0\n", "", "fire", "C20.4"),
+    ("off-budget-renamed-ok", _TO, "    while np.less([agent.steps[-1] for agent in pop], max_steps).all():", "    while np.less([a.steps[-1] for a in pop], max_steps).all():", "silent", None),
+    ("off-fitness-to-other-list", _TO, "        pop_fitnesses.append(fitnesses)", "        pop_fps.append(fitnesses)", "fire", "C20"),
+    ("off-return-other-list", _TO, "    pbar.close()\n    return pop, pop_fitnesses\n", "    pbar.close()\n    return pop, pop_loss\n", "fire", "C20.6"),
+    ("ma-learn-not-sampled", _TMA, "                    for _ in range(num_envs // agent.learn_step):\n                        # Sample replay buffer\n                        experiences = sampler.sample(agent.batch_size)\n                        # Learn according to agent's RL algorithm\n                        loss = agent.learn(experiences)",
+     "                    for _ in range(num_envs // agent.learn_step):\n                        # Sample replay buffer\n                        experiences = sampler.sample(agent.batch_size)\n                        # Learn according to agent's RL algorithm\n                        loss = agent.learn(obs)", "fire", "C20.1"),
+    ("cqn-keyed-by-constant-var", "agilerl/algorithms/cqn.py", "                experiences[key]\n                for key in", "                experiences[0]\n                for key in", "fire", "C20.1"),
 ]
